@@ -314,6 +314,19 @@ def check_case(spec):
     c = P.copy()
     if c is P or np.shares_memory(c.points, P.points) or not np.array_equal(c.points, P.points) or c != P:
         res.fail("C18.copy", "copy() is not an independent equal polygon")
+    # resample(): another non-in-place operation (num_points falsy but not None = "an unaltered copy")
+    before = P.points.copy()
+    for n in (0, None, 7 + len(before) % 23):
+        try:
+            R = P.resample(n)
+        except Exception as exc:  # noqa: BLE001
+            res.label(f"resample raised {type(exc).__name__}")
+            continue
+        stored_ok(res, R, f"resample({n})")
+        if R is P or np.shares_memory(R.points, P.points) or not np.array_equal(P.points, before):
+            res.fail("C18.resample_aliasing", f"resample({n}) returned an aliased polygon or changed the original")
+        if n == 0 and not np.array_equal(R.points, before):
+            res.fail("C18.resample_aliasing", "resample(0) is documented to return an unaltered copy")
     res.nontrivial = crossing or reflected
     if crossing:
         res.label("boundaries intersect")
